@@ -52,3 +52,30 @@ package validate
 //@   loop 1
 //@     invariant !isnil(seen) && has(seen, childType) && (len(entity.ParentTypes) > 0 ==> has(v.schema.Entities, childType))
 //@     invariant sub(old(seen), seen)
+
+// Capabilities (attributes known to be present after a `has` guard) are a set:
+// a capability survives `||` / the join of two branches only if both sides
+// established it, and `&&` / sequencing accumulates them. (C15: an accepted
+// attribute access cannot fail with a missing attribute.)
+//@ spec func capIn(cs capabilitySet, c capability) bool = has(cs, c) && cs[c]
+// representation: only `true` is ever stored
+//@ spec func capOK(cs capabilitySet) bool = forall c capability :: { has(cs, c) } has(cs, c) ==> cs[c]
+//@ func (capabilitySet) has
+//@   props C15
+//@   pure
+//@   results r
+//@   ensures r == capIn(cs, c)
+//@ func (capabilitySet) intersect
+//@   props C15
+//@   requires capOK(cs) && capOK(other)
+//@   results out
+//@   ensures capOK(out)
+//@   ensures forall c capability :: capIn(out, c) == (capIn(cs, c) && capIn(other, c))
+//@   loop 1
+//@     invariant !isnil(out) && capOK(out) && (forall c capability :: capIn(out, c) == ($done[c] && capIn(cs, c) && capIn(other, c)))
+//@ func (capabilitySet) add
+//@   props C15
+//@   requires capOK(cs)
+//@   results out
+//@   ensures capOK(out)
+//@   ensures forall k capability :: capIn(out, k) == (k == c || capIn(cs, k))
